@@ -47,6 +47,37 @@ CHECKS = {
             "spec's exact rational (1e-9).",
             "Bounded grids of click sizes, distances, magnifications and corrections; unit variants from the UnitAlgebra table (linear angular units only).",
             "DESIGN.md §4 C19"),
+    "C03": ("TLA+ specs IntegratorOps/Integrator (design, TLC exhaustive) + Gen_Integrator behaviours replayed into the real "
+            "_TrajectoryDataFilter + Trace_Integrator validating hook traces of real fire() calls",
+            "TLC checks one-row-per-multiple, muzzle row, record-when-reached and time-gap for every advance sequence (incl. tail-wind "
+            "advances > min step) and refutes the pinned loop rule; TLC-simulated controller behaviours drive the real recorder object "
+            "exactly; recorded iterations of real shots are re-decided by the same operators in the trace monitor.",
+            "Design model bounded (ranges <= 12 units, advances <= 4, <= 6 wind ends); real shots are seeded samples projected with a 1e-10 band on threshold predicates; hooks H1 must be present (PYBC_VERIF=1).", "DESIGN.md §4 C03"),
+    "C04": ("TLA+ spec Integrator (limit verdict, liveness) model-checked by TLC + Trace_Integrator validating hook traces of real "
+            "limit-hitting shots, paired with relaxed-limit runs",
+            "TLC checks verdict = first violated limit in precedence order, stop at first violation, no error without violation, and "
+            "termination under the gravity assumption, for every subset of limits violated per step; real vertical/slow/zero-velocity/"
+            "limit shots are run under a watchdog and validated per iteration (reason truthful, precedence, earlier rows within limits, "
+            "last distance, earlier rows bit-identical to the relaxed-limit run).",
+            "Design model bounded (ranges <= 12 units, advances <= 4, <= 6 wind ends); real shots are seeded samples projected with a 1e-10 band on threshold predicates; hooks H1 must be present (PYBC_VERIF=1).", "DESIGN.md §4 C04"),
+    "C11": ("TLA+ spec Integrator (twin recorders over one physics) model-checked by TLC + Trace_Integrator on paired real requests",
+            "TLC checks that every recorded row lies on the polyline of iteration points that no recorder influences, for two requests "
+            "observing the same shot; real shots are fired with 8 request variants each: iteration pre-states bit-identical, common rows "
+            "equal to 64 ulp, extra = plain + event-flagged rows; the monitor checks the row-emission rule per iteration.",
+            "Design model bounded (ranges <= 12 units, advances <= 4, <= 6 wind ends); real shots are seeded samples projected with a 1e-10 band on threshold predicates; hooks H1 must be present (PYBC_VERIF=1).", "DESIGN.md §4 C11"),
+    "C12": ("TLA+ spec Integrator (wind sock by position) model-checked by TLC + behaviours replayed into the real _WindSock + "
+            "Trace_Integrator per-iteration wind check and paired metamorphic runs",
+            "TLC checks segment = number of boundaries reached for wind-end lists with duplicates/zeros/ends beyond range and refutes the "
+            "pinned one-segment-per-iteration sock; TLC behaviours drive the real sock with scrambled input order; in real shots the wind "
+            "vector used by every iteration must be the documented vector of the segment the projectile is in; order, causality, mirror, "
+            "zero-wind and sign clauses on paired runs.",
+            "Design model bounded (ranges <= 12 units, advances <= 4, <= 6 wind ends); real shots are seeded samples projected with a 1e-10 band on threshold predicates; hooks H1 must be present (PYBC_VERIF=1).", "DESIGN.md §4 C12"),
+    "C15": ("TLA+ spec Integrator (event flags vs history ghosts) model-checked by TLC + behaviours replayed into the real "
+            "_TrajectoryDataFilter + Trace_Integrator on real extra-data shots",
+            "TLC checks each crossing flagged exactly once in the iteration that first observes it, for every side/sonic sequence and "
+            "muzzle/barrel configuration; TLC behaviours drive the real filter (flags and seen_zero per call); real extra-data shots are "
+            "validated per iteration (missing/spurious/duplicate flags, within-one-step bounds, row order, zeros() accessor).",
+            "Design model bounded (ranges <= 12 units, advances <= 4, <= 6 wind ends); real shots are seeded samples projected with a 1e-10 band on threshold predicates; hooks H1 must be present (PYBC_VERIF=1).", "DESIGN.md §4 C15"),
 }
 
 NOT_APPLICABLE = {
